@@ -38,8 +38,9 @@ Targets == {[base |-> b, chain |-> c, call |-> k] : b \in Bases, c \in Chains, k
               \cup {[base |-> [b |-> "subscript"], chain |-> <<>>, call |-> k] : k \in BOOLEAN}
 \* which generator variable (bound to a callable canary) is in scope, if any; "f_op": the enclosing generator
 \* expression is consumed by an operator ('x in (... for f in ...)') instead of any()/all()
-InGen == {"none", "f_op"} \cup GenVars
-VarOf(g) == IF g = "f_op" THEN "f" ELSE g
+\* "net_val": the variable is called `net` -- the ROOT of the dotted constructors -- and is bound to a VALUE of the record
+InGen == {"none", "f_op", "net_val"} \cup GenVars
+VarOf(g) == IF g = "f_op" THEN "f" ELSE IF g = "net_val" THEN "net" ELSE g
 \* ---- what the Call branch decides ----
 SyntaxOK(t) == t.base.b \notin {"lambda", "subscript"} /\ ~(t.chain = <<>> /\ t.base.b \in {"callres", "const", "paren"})
 \* resolve_attr_path: attrs (reversed back) + root name if the chain bottoms out in a Name
@@ -87,7 +88,8 @@ Outcome(t, ingen) ==
 Safe == {"refused", "helper", "builtin4", "ctor", "read"}
 \* syntactic context the call is nested in (the decision must not depend on it)
 Contexts == {"bare", "arg", "operand", "listelt", "genelt", "geniter", "gencond", "kwarg", "not", "boolop",
-             "add_list", "mult", "bitor"}       \* the value is the LEFT operand of an operator (must never be modified in place)
+             "add_list", "mult", "bitor",       \* the value is the LEFT operand of an operator (must never be modified in place)
+             "helper_strings", "helper_fields"} \* the value is handed to a whitelisted helper as its list of strings / of field names
 VARIABLES t, g, ctx
 Init == t \in Targets /\ g \in InGen /\ ctx \in Contexts
 Next == UNCHANGED <<t, g, ctx>>
